@@ -1532,15 +1532,24 @@ fn interpolate_string(
 
     let mut result: Vec<String> = vec![];
 
+    // The slot boundaries are offsets in characters, so they're converted to
+    // byte offsets before slicing.
+    let byte_at = |char_idx: usize| {
+        s.char_indices().nth(char_idx).map_or(s.len(), |(i, _)| i)
+    };
+
     let mut last_slot_end = 0;
 
     for cur_slot in interpolation_slots {
         let (cur_slot_start, cur_slot_end) = cur_slot;
-        result.push(s[last_slot_end .. *cur_slot_start].to_string());
+        result.push(
+            s[byte_at(last_slot_end) .. byte_at(*cur_slot_start)].to_string(),
+        );
 
         // We shorten the slot to skip the delimiters (`${` at the start and
         // `}` at the end).
-        let directive = &s[(cur_slot_start+2) .. (cur_slot_end-1)];
+        let directive =
+            &s[byte_at(cur_slot_start+2) .. byte_at(cur_slot_end-1)];
 
         let slot_col = col + cur_slot_start + 4;
 
@@ -1594,7 +1603,7 @@ fn interpolate_string(
         last_slot_end = *cur_slot_end;
     }
 
-    result.push(s[last_slot_end ..].to_string());
+    result.push(s[byte_at(last_slot_end) ..].to_string());
 
     Ok(result.join(""))
 }
